@@ -64,7 +64,7 @@ Lemma run_net_p_is_run_net n rs und k cands order sup :
   | t => t
   end.
 Proof.
-  unfold run_net_p, run_net, siphon_persistence_condition, persistence_of. cbv zeta.
+  unfold run_net_p, run_graph_p, run_net, siphon_persistence_condition, persistence_of. cbv zeta.
   destruct (split_ok _); reflexivity.
 Qed.
 
